@@ -17,10 +17,11 @@ from vf.models import settings as model
 ID = 'C11'
 LEVEL = 'exploration'
 RULE = ('case = one generated test case holding a history of setting instructions (env set/unset with -of act, -of !act '
-        'or neither, values with ${..} self-, cross- and unknown references; cd -rel-act/-rel-tmp/-rel-cd/default; '
+        'or neither, values with ${..} self-, cross- and unknown references; cd -rel-act/-rel-tmp/-rel-cd/default, '
+        '-rel-result after act; '
         'timeout = n|none; def string / def path -rel-cd) distributed over setup/before-assert/assert/cleanup, with probe '
         'processes (%, run, $, program inside an env value, and the action) at the start of phases and after settings. '
-        'Core: every history of length <= 2 over a 15-letter alphabet and of length 3 over a 5-letter alphabet, in every '
+        'Core: every history of length <= 2 over a 16-letter alphabet and of length 3 over a 5-letter alphabet, in every '
         'distribution over the four phases, a probe at the start of every phase and after every instruction; seeded: '
         'random histories of 4..10 settings. One evaluation = one probe position compared (probe record: env pool, cwd, '
         'argv; M2 record: full env, timeout, cwd) with the reference state after the preceding instructions. Class key = '
@@ -34,7 +35,7 @@ ASSUMPTIONS = [
     'are changed at once)',
     'values never contain text that would form a new ${..} element after substitution (no literal "{" / "}"), since the '
     'manual does not say whether substituted text is expanded again; variable names are [A-Z]+ only',
-    '`cd` is only generated into directories known to exist inside the sandbox (root, act, tmp and directories the '
+    '`cd` is only generated into directories known to exist inside the sandbox (root, act, tmp, result and directories the '
     'prelude creates); failing cd is not part of this property',
     'timeout values are >= 30 s so that no probe (which returns at once) can expire; real expiry belongs to C19',
     'INTEGER of `timeout` is a plain decimal literal (expressions belong to C06/C18); string quoting is limited to '
@@ -43,19 +44,19 @@ ASSUMPTIONS = [
     '-rel-cd / default / -rel-act / -rel-tmp only; other types and reference restrictions belong to C08/C12',
     'the sandbox root is learnt from the M1 audit event tempfile.mkdtemp (cross-checked with the path --keep prints)',
 ]
-EXHAUSTIVE_NOTE = ('all histories of length <= 2 over the 15-letter alphabet CORE_FULL and of length 3 over the 5-letter '
+EXHAUSTIVE_NOTE = ('all histories of length <= 2 over the 16-letter alphabet CORE_FULL and of length 3 over the 5-letter '
                    'alphabet CORE_L3, each in every order-preserving distribution over the four phases (4/10/20 ways), '
                    'are run in both tiers (histories whose cd would leave the known directories are dropped)')
-MIN_OBS = {'quick': {'evaluations': 30000, 'classes': 300, 'c11.histories': 6000, 'c11.probe_records_compared': 30000,
-                     'c11.m2_records_compared': 30000, 'c11.act_probes_compared': 6000,
-                     'c11.probes_after_phase_boundary': 5000, 'c11.child_cd_probes': 1000,
-                     'c11.env_value_from_program_probes': 500, 'c11.keep_sandbox_crosschecks': 300,
-                     'c11.path_symbol_rel_cd_compared': 500},
-           'thorough': {'evaluations': 300000, 'classes': 600, 'c11.histories': 30000,
+MIN_OBS = {'quick': {'evaluations': 33000, 'classes': 600, 'c11.histories': 4500, 'c11.probe_records_compared': 33000,
+                     'c11.m2_records_compared': 33000, 'c11.act_probes_compared': 4500,
+                     'c11.probes_after_phase_boundary': 11000, 'c11.child_cd_probes': 12000,
+                     'c11.env_value_from_program_probes': 700, 'c11.keep_sandbox_crosschecks': 350,
+                     'c11.path_symbol_rel_cd_compared': 1500},
+           'thorough': {'evaluations': 300000, 'classes': 1100, 'c11.histories': 40000,
                         'c11.probe_records_compared': 300000, 'c11.m2_records_compared': 300000,
-                        'c11.act_probes_compared': 30000, 'c11.probes_after_phase_boundary': 50000,
-                        'c11.child_cd_probes': 20000, 'c11.env_value_from_program_probes': 10000,
-                        'c11.keep_sandbox_crosschecks': 3000, 'c11.path_symbol_rel_cd_compared': 20000}}
+                        'c11.act_probes_compared': 40000, 'c11.probes_after_phase_boundary': 80000,
+                        'c11.child_cd_probes': 80000, 'c11.env_value_from_program_probes': 15000,
+                        'c11.keep_sandbox_crosschecks': 3000, 'c11.path_symbol_rel_cd_compared': 30000}}
 KNOWN = {}
 
 PHASES = list(model.PHASES)
@@ -63,7 +64,7 @@ POOL = ['VA', 'VB', 'VC']          # VC is inherited from the environment Exactl
 UNKNOWN = 'VX'                     # never set anywhere
 RECORDED = POOL + [UNKNOWN]
 TIMEOUTS = [30, 45, 60, 61, 75, 120, 600, 3600, None]
-N_SEEDED = {'quick': 1200, 'thorough': 40000}
+N_SEEDED = {'quick': 1000, 'thorough': 40000}
 
 
 # =================================================================================================
@@ -110,8 +111,11 @@ CORE_FULL = [
     ('defpath',),                                         # def path Pk = -rel-cd fk  (evaluated when referenced)
     ('envprog', 'non'),                                   # env [-of !act] VB = -stdout-from PROBE .. (prints "${VA}p")
     ('envprog', 'act'),                                   # env -of act VB = -stdout-from PROBE ..   (setup only)
+    ('set', None, 'VA', '${VA}.', 'soft'),                # self reference, both sets, each against itself
 ]
-CORE_L3 = [CORE_FULL[0], CORE_FULL[1], CORE_FULL[2], CORE_FULL[4], CORE_FULL[8]]
+# length 3: the three self-referencing appends make the value of VA in each set spell the history of changes applied
+# to that set ('.' both, '+' act, '-' non-act), so any change applied to / expanded against the wrong set shows
+CORE_L3 = [CORE_FULL[15], CORE_FULL[1], CORE_FULL[2], CORE_FULL[4], CORE_FULL[8]]
 _VIAS = ['%', 'run', '$']
 
 
@@ -258,8 +262,10 @@ def _rnd_setting(rng, phase, m, ndefs):
             for p in ('.', 'a', 'a/a', 'a/a/a', 'b'):
                 cands.append((rel, p))
         for rel in ('cd', None):
-            for p in ('.', '..', 'a', 'b', '../b', '../a', '../..', 'a/a', '../tmp', '../act'):
+            for p in ('.', '..', 'a', 'b', '../b', '../a', '../..', 'a/a', '../tmp', '../act', '../result'):
                 cands.append((rel, p))
+        if phase != 'setup':
+            cands.extend([('result', '.')] * 3)      # -rel-result is accepted by `cd` after the act phase
         rng.shuffle(cands)
         for rel, p in cands:
             t = m.cd_target(rel, p)
@@ -593,19 +599,28 @@ def run_case(case, ctx):
                 if e['last'] is not None:
                     classes.append((e['where'], e['via'], e['last'],
                                     'same-phase' if not e['crossed'] else 'set-in-' + e['last_phase']))
-                if len(sample_rows) < 12:
-                    sample_rows.append({'probe': e['id'], 'where': e['where'], 'via': e['via'], 'set': e['which'],
-                                        'expected': {'env': exp_pool, 'cwd': exp['cwd'].replace(root, '<SDS>'),
+                if len(sample_rows) < 10:
+                    def some(env):
+                        return {k: v for k, v in env.items() if v is not None}
+                    sample_rows.append({'probe': '%s in [%s] via %s sees the %s set' % (e['id'], e['where'], e['via'],
+                                                                                      e['which']),
+                                        'expected': {'env': some(exp_pool), 'cwd': exp['cwd'].replace(root, '<SDS>'),
                                                      'timeout': exp['timeout'],
-                                                     'symbols': [s.replace(root, '<SDS>') for s in exp['symbols']]},
-                                        'observed': {'env': rec['env'], 'cwd': rec['cwd'].replace(root, '<SDS>'),
-                                                     'timeout_given_to_os': hits[0]['timeout'] if len(hits) == 1
-                                                     else None,
+                                                     'argv': [s.replace(root, '<SDS>') for s in exp['symbols']]},
+                                        'observed': {'env': some(rec['env']),
+                                                     'cwd': rec['cwd'].replace(root, '<SDS>'),
+                                                     'timeout': hits[0]['timeout'] if len(hits) == 1 else '?',
                                                      'argv': [s.replace(root, '<SDS>') for s in rec['argv']]}})
             # a process changing its own directory / Exactly changing directory must not leak to the caller
             if r.cwd_after != r.cwd_before:
                 bad('cwd of the process running Exactly changed from %r to %r' % (r.cwd_before, r.cwd_after),
                     tag='outer-cwd')
+            # the two sets are Exactly's own state: the environment Exactly itself runs in stays as it was
+            if r.env_after != r.env_before:
+                diff = {k: [r.env_before.get(k), r.env_after.get(k)] for k in set(r.env_before) | set(r.env_after)
+                        if r.env_before.get(k) != r.env_after.get(k)}
+                bad('environment of the process running Exactly changed {name: [before, after]}: %r' % diff,
+                    tag='outer-env', diff=diff)
     ses.clean_tmp()
     ses.drop(d)
     res = {'classes': sorted(set(classes)), 'viol': viol, 'inconclusive': inconc, 'evaluations': evaluations}
